@@ -105,7 +105,9 @@ func history(r *ev.Run, c *ev.Case, hi int) {
 	user := pool[rng.Intn(len(pool))]
 	kd.Write("alice.pub", gsrig.AuthorizedLine(user.Pub, ""))
 	validity := []uint64{1, 59, 3600, 43200, 30 * 86400, 90 * 86400, 365 * 86400, 3650 * 86400}[rng.Intn(8)]
-	gc, _, err := gsrig.GensignConfig(gsrig.Conf{PubKeyDir: kd.Path, Identifiers: map[string]string{"default": "d"}, ValiditySec: validity})
+	// every handler configuration: a third of the histories set the key_label option
+	label := []string{"", "", "", "", "corp-sso", "regular", "paranoids.regular", "x y"}[rng.Intn(8)]
+	gc, _, err := gsrig.GensignConfig(gsrig.Conf{PubKeyDir: kd.Path, Identifiers: map[string]string{"default": "d"}, ValiditySec: validity, KeyLabel: label})
 	if err != nil {
 		r.Inconclusive(err.Error())
 		return
